@@ -259,7 +259,7 @@ VARIANTS = ['absent', 'correct', 'bitflip-1', 'bitflip-2', 'bitflip-3', 'truncat
 def run(ck):
     thorough = ck.thorough()
     n = 0
-    for rep in range(1 if not thorough else 8):
+    for rep in range(1 if not thorough else 12):
         for thr in (0, 3, 10):
             for e in (0, 1, 3):
                 for h in sorted({0, max(0, thr - 1), thr, thr + 1, thr + 2, 3 * thr}):
@@ -270,7 +270,7 @@ def run(ck):
                         if not thorough and e == 3 and v.startswith('bitflip') and v != 'bitflip-1':
                             continue
                         responder_case(ck, ck.rng('resp', n), thr, e, h, v, n)
-    for i in range(24 if not thorough else 400):
+    for i in range(24 if not thorough else 3000):
         if ck.mine(i):
             initiator_case(ck, ck.rng('init', i), i)
 
